@@ -107,12 +107,15 @@ def run(ctx):
         idx = rng.choice(n, size=nlab, replace=False)
         y[idx] = y_true[idx]
         Xq = rng.normal(size=(4, 2))
+        xq_dtype = ["float64", "float64", "int64", "float32"][(h // 2) % 4]
+        if xq_dtype != "float64":            # integer / single-precision query matrices: same values, other dtype
+            Xq = np.round(Xq * 3).astype(xq_dtype)
         seed = int(rng.integers(0, 50))
         centre = float(np.mean(y[idx])) if nlab else 0.0
         for name, mk, kind in regs(seed, centre):
             if "GPR" in name and scale != "unit":
                 continue      # scikit-learn's GaussianProcessRegressor itself returns NaN for targets with a huge offset: third-party numerics, not the wrapper
-            rc = {"target_scale": scale, "regressor": name, "X": X.tolist(), "y": [None if np.isnan(v) else v for v in y], "Xq": Xq.tolist(), "seed": seed}
+            rc = {"target_scale": scale, "query_dtype": xq_dtype, "regressor": name, "X": X.tolist(), "y": [None if np.isnan(v) else v for v in y], "Xq": Xq.tolist(), "seed": seed}
             try:
                 m = mk().fit(X, y)
                 mu = np.asarray(m.predict(Xq), dtype=float)
@@ -125,6 +128,15 @@ def run(ctx):
             ctx.count(name)
             if nlab >= 1:
                 ctx.nontriv((name, X.tobytes(), y.tobytes(), seed))
+            if xq_dtype != "float64":
+                try:
+                    mu64 = np.asarray(m.predict(Xq.astype(float)), dtype=float)
+                    if not np.allclose(mu, mu64, rtol=1e-5 if xq_dtype == "float32" else 1e-12, atol=1e-6 if xq_dtype == "float32" else 1e-12, equal_nan=True):
+                        ctx.violation(name, "query_dtype_matters", f"predict on the {xq_dtype} query matrix = {mu.tolist()}, on the same values as float64 = {mu64.tolist()} ({nlab} labels)", rc,
+                                      what=f"{name}: predictions depend on the dtype of the query matrix ({xq_dtype} vs float64, {nlab} labeled samples)")
+                        continue
+                except Exception:
+                    pass
             if mu.shape != (len(Xq),):
                 ctx.violation(name, "predict_shape", f"predict shape {mu.shape}", rc)
                 continue
